@@ -61,7 +61,8 @@ fn summ_float<T: F>(case: &Value, out: &mut Vec<Value>) {
     let a = lay_of(case, "lay1", &shape).build(&xs, |_| T::f(-777.0));
     let l1 = lay_of(case, "lay1", &shape);
     let av = l1.view(&a);
-    let wv: Vec<T> = w.iter().map(|&v| T::f(v as f64 / ws)).collect();
+    let wexp = case.get("wexp").and_then(|x| x.as_i64()).unwrap_or(0) as i32;
+    let wv: Vec<T> = w.iter().map(|&v| T::f(v as f64 / ws * (2.0f64).powi(wexp))).collect();
     let mut o = case.as_object().unwrap().clone();
     o.insert("ev".into(), json!("summ"));
     o.insert("ty".into(), json!(T::NAME));
@@ -89,7 +90,7 @@ fn summ_float<T: F>(case: &Value, out: &mut Vec<Value>) {
             let bv = l2.view(&b);
             let bo = if l2.forder { let mut t = Array::zeros(bv.raw_dim().f()); t.assign(&bv); t } else { bv.to_owned() };
             match stat {
-                "wsum" => res_json(guarded(|| ao.weighted_sum(&bo)), |v| q(v, 0.0)),
+                "wsum" => res_json(guarded(|| ao.weighted_sum(&bo)), |v| q(T::f(v.g() * (2.0f64).powi(-wexp)), 0.0)),
                 "wmean" => res_json(guarded(|| ao.weighted_mean(&bo)), |v| q(v, base)),
                 "wvar" => res_json(guarded(|| ao.weighted_var(&bo, ddof)), |v| q(v, 0.0)),
                 _ => res_json(guarded(|| ao.weighted_std(&bo, ddof)), |v| quant(v.g() * v.g(), qe)),
@@ -391,7 +392,8 @@ pub fn gen(seed: u64, count: usize, tier: &str, params: &Params) -> Vec<Value> {
                 if w.iter().sum::<i64>() == 0 { w[0] = 1; }
                 let bexp = if matches!(stat, "mean" | "wmean" | "wmean_axis") && !f32ty && !long { *rng.pick(&[-1i64, -1, 10, 20, 30]) } else { -1 };
                 cases.push(json!({"ev": "summ", "stat": stat, "ty": ty, "r": r, "w": w, "S": if stat == "harmonic" || stat.ends_with("_int") { 1 } else { 4 }, "WS": *rng.pick(&[1i64, 4]),
-                                  "bexp": bexp, "qe": if f32ty { 8 } else if long { 10 } else { 14 }, "tol": 2, "shape": shape, "axis": axis, "lay1": lay1, "lay2": lay2,
+                                  "bexp": bexp, "wexp": if matches!(stat, "wsum" | "wmean") { if f32ty { *rng.pick(&[0i64, 0, -60, 40]) } else { *rng.pick(&[0i64, 0, -80, -200, 60]) } } else { 0 },
+                                  "qe": if f32ty { 8 } else if long { 10 } else { 14 }, "tol": 2, "shape": shape, "axis": axis, "lay1": lay1, "lay2": lay2,
                                   "wlay": *rng.pick(&["plain", "rev", "step"])}));
             }
             "c07" => {
@@ -409,8 +411,14 @@ pub fn gen(seed: u64, count: usize, tier: &str, params: &Params) -> Vec<Value> {
                         let mut w: Vec<i64> = (0..wl).map(|_| rng.range(0, 4)).collect();
                         // positive total weight; weight sum must exceed ddof
                         if w.iter().sum::<i64>() < 2 { w[wl - 1] = 2; }
+                        let mut r = r;
+                        // an observation of weight zero may hold anything - e.g. a huge value - without influencing the result
+                        if !stat.ends_with("_axis") && w[0] == 0 && rng.chance(1, 2) { r[0] = if rng.chance(1, 2) { (1 << 29) - 1 } else { -(1 << 29) + 1 }; }
+                        let d = rng.range(0, 2);
+                        // the variance with ddof = 0 does not change when all weights are scaled by a power of two
+                        let wexp: i64 = if d == 0 { if f32ty { *rng.pick(&[0i64, 0, -60, 40]) } else { *rng.pick(&[0i64, 0, -80, -200, 60]) } } else { 0 };
                         let bexp = if f32ty { -1 } else { *rng.pick(&[-1i64, -1, 10, 20]) };
-                        cases.push(json!({"ev": "summ", "stat": stat, "ty": ty, "r": r, "w": w, "S": 4, "WS": 1, "d": rng.range(0, 2), "bexp": bexp,
+                        cases.push(json!({"ev": "summ", "stat": stat, "ty": ty, "r": r, "w": w, "S": 4, "WS": 1, "d": d, "wexp": wexp, "bexp": bexp,
                                           "qe": if f32ty { 6 } else { 12 }, "tol": 2, "shape": shape, "axis": axis, "lay1": lay1, "lay2": lay2,
                                           "wlay": *rng.pick(&["plain", "rev", "step"])}));
                     }
